@@ -22,6 +22,7 @@ type selGraph struct {
 	Tag    []string            `json:"tag"`
 	Test   []string            `json:"test"`
 	Plat   map[string]string   `json:"plat"`
+	Layout string              `json:"layout"`
 }
 type selInv struct {
 	Pats []string `json:"pats"`
@@ -62,7 +63,11 @@ func selName(g selGraph, n string) string {
 }
 
 func selLabel(g selGraph, n string) label.TargetLabel {
-	return label.TargetLabel{Package: selPkg[n], Name: selName(g, n)}
+	pkg := selPkg[n]
+	if n == "r" && g.Layout == "root" {
+		pkg = ""
+	}
+	return label.TargetLabel{Package: pkg, Name: selName(g, n)}
 }
 
 func buildSelNodes(g selGraph) model.BuildNodeMap {
